@@ -73,7 +73,22 @@ _BUILTINS: Dict[str, Callable[..., Any]] = {
     "bool": bool,
     "reversed": lambda x: list(reversed(x)),
     "enumerate": lambda *a: list(enumerate(*a)),
+    "next": lambda it, *d: _next(it, *d),
+    "filter": lambda f, it: [x for x in it if (f(x) if f is not None else x)],
+    "map": lambda f, *its: [f(*xs) for xs in zip(*its)],
+    "any": any,
+    "all": all,
+    "round": round,
 }
+
+
+def _next(it, *default):
+    seq = list(it)
+    if seq:
+        return seq[0]
+    if default:
+        return default[0]
+    raise NotConst("next() of an empty iterable (StopIteration)")
 _METHODS = {
     (str, "join"),
     (str, "upper"),
@@ -161,8 +176,12 @@ class Folder:
                 raise NotConst(f"{n.id} is not a constant")
             expr = mod.consts[home_name]
         except NotConst:
+            if n.id in ("int", "float", "str", "len", "bool", "abs") :
+                return _BUILTINS[n.id]
             raise
         except Exception:
+            if n.id in ("int", "float", "str", "len", "bool", "abs"):
+                return _BUILTINS[n.id]
             raise NotConst(f"unknown name {n.id}")
         self._busy.add(key)
         try:
@@ -357,6 +376,18 @@ class Folder:
                     rec(i + 1, env2)
 
         rec(0, {})
+
+    def _f_Lambda(self, n):
+        if n.args.vararg or n.args.kwarg or n.args.kwonlyargs or n.args.defaults:
+            raise NotConst("lambda signature")
+        params = [a.arg for a in n.args.posonlyargs + n.args.args]
+
+        def call(*vals):
+            if len(vals) != len(params):
+                raise NotConst("lambda arity")
+            return self.child(dict(zip(params, vals))).fold(n.body)
+
+        return call
 
     def _f_ListComp(self, n):
         out = []
